@@ -118,6 +118,19 @@ def joinv(a: Optional[Obj], b: Optional[Obj], _d=0) -> Optional[Obj]:
     if a.kind == b.kind == "tuple" and len(a.items) == len(b.items):
         o = Obj("tuple")
         o.items = [joinv(x, y, _d + 1) for x, y in zip(a.items, b.items)]
+        if a.fields and set(a.fields) == set(b.fields) and a.val is b.val:
+            # two instances of one NamedTuple class: the names go with the positions
+            o.val = a.val
+            names = list(a.fields)
+            pos = {n: next((i for i, it in enumerate(a.items) if it is a.fields[n]), None) for n in names}
+            for n in names:
+                o.fields[n] = o.items[pos[n]] if pos[n] is not None else joinv(a.fields[n], b.fields[n], _d + 1)
+        return o
+    if a.kind == b.kind == "instance" and a.val is b.val:
+        o = Obj("instance")
+        o.val = a.val
+        for k in set(a.fields) | set(b.fields):
+            o.fields[k] = joinv(a.fields.get(k), b.fields.get(k), _d + 1)
         return o
     if a.kind in ("none", "emptydict") and b.kind not in ("scalar", "const", "str"):
         return b
@@ -170,10 +183,21 @@ class _Return(Exception):
     pass
 
 
+def _own_nodes(fn):
+    stack = list(ast.iter_child_nodes(fn))
+    while stack:
+        n = stack.pop()
+        yield n
+        if isinstance(n, (ast.FunctionDef, ast.AsyncFunctionDef, ast.Lambda)):
+            continue
+        stack.extend(ast.iter_child_nodes(n))
+
+
 class Frame:
     def __init__(self, fi: FuncInfo):
         self.fi = fi
         self.ret: Optional[Obj] = None
+        self.yields: Optional[Obj] = None       # list of yielded values when the function is a generator
         self.loop_vars: list[set[str]] = []     # names bound by enclosing for-loops in this frame
         self.loop_if_depth: list[int] = []      # number of If statements entered inside the innermost loop
 
@@ -226,6 +250,8 @@ class HeapInterp:
         finally:
             self.stack.pop()
             self.frames.pop()
+        if fr.yields is not None or any(isinstance(x, (ast.Yield, ast.YieldFrom)) for x in _own_nodes(fn)):
+            return fr.yields if fr.yields is not None else Obj("list")
         return fr.ret if fr.ret is not None else NONE()
 
     # ------------------------------------------------------------------ statements
@@ -1063,6 +1089,12 @@ class HeapInterp:
 
     def e_Compare(self, e, env, pc, fi):
         left = self.ev(e.left, env, pc, fi)
+        if len(e.ops) == 1 and isinstance(e.ops[0], (ast.Is, ast.IsNot)) and isinstance(e.comparators[0], ast.Constant) and e.comparators[0].value is None:
+            # `x is None` on a value that is certainly None / certainly an object
+            if left.kind == "none":
+                return Obj("const", E, isinstance(e.ops[0], ast.Is))
+            if left.kind in ("tuple", "rec", "list", "map", "instance", "func", "class", "str") or (left.kind == "const" and left.val is not None and not left.t):
+                return Obj("const", E, isinstance(e.ops[0], ast.IsNot))
         if len(e.ops) == 1 and isinstance(e.ops[0], (ast.Eq, ast.NotEq)) and left.kind == "const" and not left.t:
             right = self.ev(e.comparators[0], env, pc, fi)
             if right.kind == "const" and not right.t and isinstance(left.val, (str, int, bool, type(None))) and isinstance(right.val, (str, int, bool, type(None))):
@@ -1095,6 +1127,25 @@ class HeapInterp:
 
     def e_FormattedValue(self, e, env, pc, fi):
         return string(prov(self.ev(e.value, env, pc, fi)))
+
+    def e_Yield(self, e, env, pc, fi):
+        fr = self.frames[-1]
+        v = self.ev(e.value, env, pc, fi) if e.value is not None else NONE()
+        if fr.yields is None:
+            fr.yields = Obj("list")
+        fr.yields.elem = joinv(fr.yields.elem, with_t(v, pc))
+        return NONE()
+
+    def e_YieldFrom(self, e, env, pc, fi):
+        fr = self.frames[-1]
+        v = self.ev(e.value, env, pc, fi)
+        if fr.yields is None:
+            fr.yields = Obj("list")
+        for el in self.iter_elems(v):
+            fr.yields.elem = joinv(fr.yields.elem, with_t(el, pc))
+        if v.kind == "list" and v.val == "lines":
+            fr.yields.val = "lines"
+        return NONE()
 
     def e_Lambda(self, e, env, pc, fi):
         o = Obj("lambda")
@@ -1226,6 +1277,11 @@ class HeapInterp:
                 o = Obj("func", val=m)
                 o.fields["self"] = b
                 return o
+            # a class-level constant read through the instance
+            for st_ in b.val.node.body:
+                tg_ = st_.targets[0] if isinstance(st_, ast.Assign) and len(st_.targets) == 1 else (st_.target if isinstance(st_, ast.AnnAssign) else None)
+                if isinstance(tg_, ast.Name) and tg_.id == e.attr and getattr(st_, "value", None) is not None:
+                    return self.ev(st_.value, {}, pc, fi)
         o = Obj("attr")
         o.val = (b, e.attr)
         return o
